@@ -29,8 +29,8 @@ LEAF = {
     "token.info == 'auto'": ("(l_auto l)", "bool"),
     "len(token.children or []) > 0": ("(l_children l)", "bool"),
     "self.md_env.get('relative-docs', None)": ("(l_include l)", "oinc"),
-    "self.md_config.commonmark_only": ("cfg_off", "bool"),
-    "self.md_config.gfm_only": ("cfg_off", "bool"),
+    "self.md_config.commonmark_only": ("(p_commonmark_only P)", "bool"),
+    "self.md_config.gfm_only": ("(p_gfm_only P)", "bool"),
     "self.md_config.all_links_external": ("(p_all_external P)", "bool"),
     "'class' in token.attrs": ("no_attrs", "bool"),
     "'external' in str(token.attrs['class']).split()": ("no_attrs", "bool"),
@@ -41,9 +41,13 @@ LEAF = {
     "node.get('refdoc', fromdocname)": ("from", "str"),
     "node[0].deepcopy()": ("(inner_of explicit)", "txt"),
     "inner.children": ("(txt_has_children v_inner)", "bool"),
+    "node['reftype'] != 'myst'": ("(negb is_myst)", "bool"),
+    "node['refdomain'] == 'doc'": ("is_doc", "bool"),
+    "len(results) > 1": ("(more_than_one v_results)", "bool"),
+    "newnode.children": ("true", "bool"),       # every candidate / fallback reference has exactly one child
 }
 # ---- calls by function text |-> (argument types, result builder, result type)
-TRANSPARENT = {"cast", "str", "Path", "self.md.normalizeLinkText"}     # identity on the modelled domain
+TRANSPARENT = {"cast", "str", "Path", "self.md.normalizeLinkText", "normalizeLink"}     # identity on the modelled domain
 
 
 class Env(dict):
@@ -205,6 +209,8 @@ class Walker:
             return "(resolve_ref_nested_src P from explicit reftarget)", "oref"
         if f == "self._resolve_doc_nested" and [ast.unparse(x) for x in a] == ["node", "refdoc"]:
             return "(resolve_doc_nested_src P from explicit reftarget)", "oref"
+        if f == "self._resolve_myst_ref_intersphinx" and [ast.unparse(x) for x in a] == ["node", "contnode", "target", "search_domains"]:
+            return "(option_map cand_ref (intersphinx reftarget))", "oref"
         raise Untranslatable(f"call {ast.unparse(e)[:100]}")
 
     def check_kwargs(self, kw, env):
@@ -222,6 +228,8 @@ class Walker:
         rs = ast.unparse(r)
         if isinstance(op, (ast.Is, ast.IsNot)) and isinstance(r, ast.Constant) and r.value is None:
             t, ty = self._expr(l, env)
+            if ty in ("ref", "loc", "inc"):                 # known to be a value on this path
+                return ("false" if isinstance(op, ast.Is) else "true"), "bool"
             if not ty.startswith("o"):
                 raise Untranslatable("is None on a non-optional")
             return (f"(negb (is_some {t}))" if isinstance(op, ast.Is) else f"(is_some {t})"), "bool"
@@ -291,6 +299,8 @@ class Walker:
             return f"(ostr_truthy {term})"
         if ty in ("oloc", "oinc", "oref"):
             return f"(is_some {term})"
+        if ty in ("ref", "loc", "inc"):                     # a value (docutils nodes are always true)
+            return "true"
         if ty == "cands":
             return f"(negb (is_nil {term}))"
         raise Untranslatable(f"truth test on {ty}: {ast.unparse(t)[:80]}")
@@ -335,6 +345,23 @@ class Walker:
                 env[s.target.id] = ann[0]
                 return f"let v_{s.target.id} := {ann[1]} in\n{self.stmts(rest, env, warned)}"
             s = ast.fix_missing_locations(ast.copy_location(ast.Assign(targets=[s.target], value=s.value, type_comment=None), s))
+        if isinstance(s, ast.FunctionDef) and s.name == "stringify":
+            return self.stmts(rest, env, warned)            # only used to word the ambiguity message
+        if isinstance(s, ast.Continue) and self.kind == "runnode":
+            return "None"                                   # the node is left as it is
+        if isinstance(s, ast.If) and ast.unparse(s.test) in (
+                "len(newnode) > 0 and isinstance(newnode[0], nodes.Element)",      # class names of the result
+                "len(node) and isinstance(node[0], nodes.Element)"):              # ids carried over (027ec44)
+            if s.orelse or not all(isinstance(x, (ast.Assign, ast.Expr)) for x in s.body) \
+                    or any(w in ast.unparse(s) for w in ("refid", "refuri", "append(", "replace_self", "log_warning")):
+                raise Untranslatable("attribute bookkeeping block does more than set classes / ids")
+            return self.stmts(rest, env, warned)
+        if isinstance(s, ast.If) and ast.unparse(s.test) == \
+                "len(newnode.children) == 1 and isinstance(newnode[0], nodes.inline) and (not newnode[0].children)":
+            nn, ty = self._expr(ast.Name(id="newnode"), env)
+            if ty != "ref":
+                raise Untranslatable("ensure-content on an optional node")
+            return self.do_if_with(f"(txt_empty_inline (snd {nn}))", s, rest, env, warned)
         if isinstance(s, ast.Assign) and len(s.targets) == 1:
             return self.assign(s, rest, env, warned)
         if isinstance(s, ast.AugAssign) and isinstance(s.target, ast.Name) and isinstance(s.op, ast.Add) \
@@ -351,7 +378,7 @@ class Walker:
             return self.do_try(s, rest, env, warned)
         raise Untranslatable(f"statement {ast.unparse(s)[:120]}")
 
-    IGNORED_ASSIGN = {"classes", "inner_classes", "caption", "stddomain", "sectname"}
+    IGNORED_ASSIGN = {"classes", "inner_classes", "caption", "stddomain", "sectname", "search_domains", "res_domain", "candidates"}
 
     def assign(self, s, rest, env, warned):
         tgt, val = s.targets[0], s.value
@@ -379,6 +406,8 @@ class Walker:
                     return f"let v_{n} := {t} in\n{self.stmts(rest, env, warned)}"
                 if n == "sectname" and ast.unparse(val) != "node.astext()":
                     raise Untranslatable("sectname")
+                if n == "search_domains" and ast.unparse(val) != "self.env.config.myst_ref_domains":
+                    raise Untranslatable("search_domains")
                 return self.stmts(rest, env, warned)
             if n == "slug_to_section":
                 if not src.startswith("slug_to_section = self.env.metadata[") or not src.endswith("].get('myst_slugs', {})"):
@@ -386,6 +415,18 @@ class Walker:
                 k, _ = self.expr(val.func.value.slice, env, "str")
                 env[n] = "slugs"
                 return f"let v_{n} := (slugs_of P {k}) in\n{self.stmts(rest, env, warned)}"
+            if n == "newnode" and ast.unparse(val) == "None":
+                env[n] = "oref"
+                return f"let v_newnode := (@None (tgt * txt)) in\n{self.stmts(rest, env, warned)}"
+            if n == "newnode" and ast.unparse(val) == "nodes.reference()":
+                # newnode = nodes.reference(); newnode['refid'] = normalizeLink(target); newnode.append(node[0].deepcopy())
+                if len(rest) < 2 or ast.unparse(rest[0]) != "newnode['refid'] = normalizeLink(target)" \
+                        or ast.unparse(rest[1]) != "newnode.append(node[0].deepcopy())":
+                    raise Untranslatable("fallback reference shape")
+                env[n] = "ref"
+                env.bound.discard(n)
+                return (f"let v_newnode := (T_fallback {self.expr(ast.Name(id='target'), env, 'str')[0]}, inner_of explicit) in\n"
+                        f"{self.stmts(rest[2:], env, warned)}")
             if n == "results" and ast.unparse(val) == "[]":
                 env[n] = "cands"
                 return f"let v_results := (@nil cand) in\n{self.stmts(rest, env, warned)}"
@@ -442,6 +483,10 @@ class Walker:
             env[names[0]], env[names[1]], env[names[2]] = "str", "str", "str"
             return (f"let v_{names[0]} := (lab_doc P v_target) in\nlet v_{names[1]} := (lab_id P v_target) in\n"
                     f"let v_{names[2]} := (lab_sect P v_target) in\n{self.stmts(rest, env, warned)}")
+        if names == ["res_role", "newnode"] and vs == "results[0]":
+            env["newnode"] = "ref"
+            return (f"match v_results with\n| [] => {self.ret(ast.Constant(value=None), env, warned)}\n"
+                    f"| c_ :: _ =>\n(let v_newnode := (cand_ref c_) in\n{self.stmts(rest, env, warned)})\nend")
         raise Untranslatable(f"assignment {src[:120]}")
 
     def do_if(self, s, rest, env, warned):
@@ -475,6 +520,11 @@ class Walker:
         b = self.stmts(list(s.orelse) + rest, env.copy(), warned)
         return f"if {c} then\n({a})\nelse\n({b})"
 
+    def do_if_with(self, cond, s, rest, env, warned):
+        a = self.stmts(list(s.body) + rest, env.copy(), warned)
+        b = self.stmts(list(s.orelse) + rest, env.copy(), warned)
+        return f"if {cond} then\n({a})\nelse\n({b})"
+
     def effect(self, call, rest, env, warned):
         f = ast.unparse(call.func)
         kws = {k.arg: ast.unparse(k.value) for k in call.keywords}
@@ -487,6 +537,30 @@ class Walker:
             if len(fv) != 1:
                 raise Untranslatable("create_warning message must name exactly one value")
             return self.stmts(rest, env, self.named(fv[0].value, env))
+        if f == "self.log_warning" and len(call.args) == 3 and ast.unparse(call.args[2]) == "MystWarnings.XREF_AMBIGUOUS" \
+                and kws == {"location": "node"}:
+            t, _ = self.expr(call.args[0], env, "str")
+            return f"let v_warns := (v_warns ++ [W_ambiguous {t}]) in\n{self.stmts(rest, env, warned)}"
+        if f == "self.resolve_myst_ref_doc" and self.kind == "runnode" and [ast.unparse(x) for x in call.args] == ["node"]:
+            if not rest or not isinstance(rest[0], ast.Continue):
+                raise Untranslatable("resolve_myst_ref_doc not followed by continue")
+            return "Some (resolve_myst_ref_doc_src P from explicit reftarget reftargetid)"
+        if f in ("newnode[0].replace_self", "newnode.append") and self.kind == "runnode" and len(call.args) == 1:
+            nn, ty = self._expr(ast.Name(id="newnode"), env)
+            t, tty = self._expr(call.args[0], env)
+            if ty != "ref" or tty != "txt":
+                raise Untranslatable("content replacement")
+            env = env.copy()
+            env["newnode"] = "ref"
+            env.bound.discard("newnode")
+            return f"let v_newnode := (fst {nn}, {t}) in\n{self.stmts(rest, env, warned)}"
+        if f == "node.replace_self" and self.kind == "runnode":
+            if rest:
+                raise Untranslatable("code after replace_self")
+            t, ty = self._expr(call.args[0], env)
+            if ty != "ref":
+                raise Untranslatable("replace_self argument")
+            return f"Some (mk (fst {t}) (snd {t}) v_warns)"
         if f == "self.log_warning":
             if len(call.args) != 3 or ast.unparse(call.args[2]) != "MystWarnings.XREF_MISSING" or kws != {"location": "node"}:
                 raise Untranslatable("log_warning shape")
@@ -543,6 +617,11 @@ class Walker:
                 return table[src]
         elif k == "str":
             return self.expr(val, env, "str")[0]
+        elif k == "anyres":
+            if src == "None":
+                return "(v_warns, None)"
+            t, _ = self.expr(val, env, "ref")
+            return f"(v_warns, Some {t})"
         elif k == "oref":
             if src == "None":
                 return "None"
@@ -559,6 +638,14 @@ class Walker:
         if h == "NoUri" and len(s.body) == 1 and isinstance(s.body[0], ast.Assign) \
                 and ast.unparse(hs[0].body[0]) == f"{ast.unparse(s.body[0].targets[0])} = innernode" and len(hs[0].body) == 1:
             return self.stmts(list(s.body) + rest, env, warned)
+        if h == "NoUri" and self.kind == "runnode" and len(s.body) == 1 and ast.unparse(s.body[0]) == \
+                "newnode = self.resolve_myst_ref_any(refdoc, node, contnode, search_domains)" \
+                and [ast.unparse(x) for x in hs[0].body] == ["newnode = contnode"]:
+            env = env.copy()
+            env["newnode"] = "oref"
+            env.bound.discard("newnode")
+            return ("let v_any := (resolve_myst_ref_any_src std_objects other_domains P from explicit reftarget) in\n"
+                    "let v_warns := (v_warns ++ fst v_any) in\nlet v_newnode := (snd v_any) in\n" + self.stmts(rest, env, warned))
         raise Untranslatable(f"try/except {h}")
 
     def fall_off(self, env, warned):
@@ -582,70 +669,163 @@ def abs_path_src(fn):
             "if has_nul v_path then None else Some (relfn2path (p_srcdir P) (d_dir d) v_path).\n")
 
 
-def candidates_src(fn):
-    """resolve_myst_ref_any up to the point where the candidate list is complete"""
+def any_src(fn, full):
+    """resolve_myst_ref_any: the candidate list (full=False, up to 'if not results') or the whole function"""
     body = [s for s in fn.body if not (isinstance(s, ast.Expr) and isinstance(s.value, ast.Constant))]
     cut = next((i for i, s in enumerate(body) if isinstance(s, ast.If) and ast.unparse(s.test) == "not results"), None)
     if cut is None:
         raise Untranslatable("resolve_myst_ref_any: 'if not results' not found")
-    head = body[:cut]
-    out, seen = [], []
-    for s in head:
-        u = ast.unparse(s)
+    stmts, seen = [], []
+    for s in body[:cut]:
         if isinstance(s, ast.If) and ast.unparse(s.test) == "only_domains is None or 'std' in only_domains":
             fors = [x for x in s.body if isinstance(x, ast.For)]
             if len(fors) != 1 or ast.unparse(fors[0].iter) != "stddomain.object_types":
                 raise Untranslatable("std objects loop")
             seen.append("std")
-            out.append(("oracle", "(std_objects reftarget)"))
+            o = ast.parse("results = __oracle__").body[0]
+            o.oracle = "(std_objects reftarget)"
+            stmts.append(o)
         elif isinstance(s, ast.For):
             if ast.unparse(s.iter) != "self.env.domains.values()":
                 raise Untranslatable("domains loop")
             seen.append("other")
-            out.append(("oracle", "(other_domains reftarget)"))
-        elif u == "target: str = node['reftarget']" or u == "results: list[tuple[str, Element]] = []":
-            out.append(("stmt", s))
-        elif u.startswith("target") or isinstance(s, ast.Assert):
-            out.append(("stmt", s))
+            o = ast.parse("results = __oracle__").body[0]
+            o.oracle = "(other_domains reftarget)"
+            stmts.append(o)
         else:
-            out.append(("stmt", s))
+            stmts.append(s)
     if seen != ["std", "other"]:
         raise Untranslatable(f"candidate sources out of order: {seen}")
+    if full:
+        stmts += body[cut:]
 
     class W(Walker):
         def fall_off(self, env, warned):
-            return "v_results"
-    # oracle blocks become  results += oracle(target)
-    stmts = []
-    for kind, x in out:
-        if kind == "stmt":
-            stmts.append(x)
-        else:
-            stmts.append(ast.parse(f"results = __oracle__").body[0])
-            stmts[-1].oracle = x
-    w = W(fn, "cands")
-    orig_assign = w.assign
+            if not full:
+                return "v_results"
+            raise Untranslatable("resolve_myst_ref_any may fall off the end")
 
-    def assign(s, rest, env, warned):
-        if hasattr(s, "oracle"):
-            return f"let v_results := (v_results ++ {s.oracle}) in\n{w.stmts(rest, env, warned)}"
-        if isinstance(s.targets[0], ast.Name) and s.targets[0].id == "target":
-            if ast.unparse(s.value) != "node['reftarget']":
-                raise Untranslatable("target")
-            return w.stmts(rest, env, warned)
-        if isinstance(s.targets[0], ast.Name) and s.targets[0].id == "res":
-            t, ty = w.expr(s.value, env)
-            env = env.copy()
-            env["res"] = ty
-            env.bound.discard("res")
-            return f"let v_res := {t} in\n{w.stmts(rest, env, warned)}"
-        return orig_assign(s, rest, env, warned)
-    w.assign = assign
+        def assign(self, s, rest, env, warned):
+            if hasattr(s, "oracle"):
+                return f"let v_results := (v_results ++ {s.oracle}) in\n{self.stmts(rest, env, warned)}"
+            if isinstance(s.targets[0], ast.Name) and s.targets[0].id == "target":
+                if ast.unparse(s.value) != "node['reftarget']":
+                    raise Untranslatable("target")
+                env = env.copy()
+                env["target"] = "str"
+                return f"let v_target := reftarget in\n{self.stmts(rest, env, warned)}"
+            if isinstance(s.targets[0], ast.Name) and s.targets[0].id == "res":
+                t, ty = self.expr(s.value, env)
+                env = env.copy()
+                env["res"] = ty
+                env.bound.discard("res")
+                return f"let v_res := {t} in\n{self.stmts(rest, env, warned)}"
+            return Walker.assign(self, s, rest, env, warned)
+    w = W(fn, "anyres" if full else "cands")
     env = Env({})
     env.bound = set()
     term = w.stmts(stmts, env, None)
+    if full:
+        return ("Definition resolve_myst_ref_any_src (std_objects other_domains : str -> list cand) (P : project) (from : str)\n"
+                "  (explicit : bool) (reftarget : str) : list warn * option (tgt * txt) :=\nlet v_warns := (@nil warn) in\n" + term + ".\n")
     return ("Definition any_candidates_src (std_objects other_domains : str -> list cand) (P : project) (from : str)\n"
             "  (explicit : bool) (reftarget : str) : list cand :=\n" + term + ".\n")
+
+
+def run_node_src(fn):
+    """MystReferenceResolver.run: the body of `for node in findall(self.document)(addnodes.pending_xref)` as a function
+    of one pending_xref node (None = the node is left untouched)"""
+    body = [s for s in fn.body if not (isinstance(s, ast.Expr) and isinstance(s.value, ast.Constant))
+            and not (isinstance(s, ast.AnnAssign) and s.value is None)]
+    if len(body) != 1 or not isinstance(body[0], ast.For) or body[0].orelse \
+            or ast.unparse(body[0].iter) != "findall(self.document)(addnodes.pending_xref)" or ast.unparse(body[0].target) != "node":
+        raise Untranslatable("run is not a single loop over the pending_xref nodes")
+
+    class W(Walker):
+        def fall_off(self, env, warned):
+            raise Untranslatable("the loop body ends without replacing the node")
+    w = W(fn, "runnode")
+    env = Env({})
+    env.bound = set()
+    term = w.stmts(list(body[0].body), env, None)
+    return ("Definition run_node_src (std_objects other_domains : str -> list cand) (intersphinx : str -> option cand)\n"
+            "  (P : project) (from : str) (is_myst is_doc : bool) (explicit : bool) (reftarget : str) (reftargetid : option str)\n"
+            "  : option outcome :=\nlet v_warns := (@nil warn) in\n" + term + ".\n")
+
+
+def include_env_src(fn):
+    """MockIncludeDirective.run: the md_env['relative-images'/'relative-docs'] bookkeeping around nested_render_text"""
+    body = list(fn.body)
+    ti = next((i for i, s in enumerate(body) if isinstance(s, ast.Try) and "nested_render_text" in ast.unparse(s)), None)
+    if ti is None:
+        raise Untranslatable("MockIncludeDirective.run: try block with nested_render_text not found")
+    tr = body[ti]
+    if tr.handlers or tr.orelse or not tr.finalbody:
+        raise Untranslatable("include try/finally shape")
+    out = []
+    SAVE = ("outer_relative = {key: self.renderer.md_env[key] for key in ('relative-images', 'relative-docs') "
+            "if key in self.renderer.md_env}")
+    saved = any(ast.unparse(x) == SAVE for x in body[:ti])
+    if any("relative-" in ast.unparse(x) and ast.unparse(x) != SAVE for x in body[:ti]
+           if not isinstance(x, (ast.If, ast.Try, ast.For)) or "md_env" in ast.unparse(x)):
+        raise Untranslatable("md_env['relative-*'] touched before the try block in an unknown way")
+    if saved:
+        out.append("let saved := env in")
+    SKIP_TRY = {"include_log.append(include_key)", "self.renderer.document['source'] = str(path)",
+                "self.renderer.reporter.source = str(path)",
+                "self.renderer.reporter.get_source_and_line = lambda li: (str(path), li)"}
+    names = {"source_dir": "cur_dir"}
+
+    def base(e):
+        if isinstance(e, ast.Name) and e.id in names:
+            return names[e.id]
+        raise Untranslatable(f"base directory {ast.unparse(e)}")
+    rendered = False
+    for x in tr.body:
+        u = ast.unparse(x)
+        if rendered:
+            raise Untranslatable("statement after nested_render_text in the try block")
+        if u in SKIP_TRY:
+            continue
+        if u == "root_dir = Path(include_log[0][0]).parent":
+            names["root_dir"] = "root_dir"
+            continue
+        if isinstance(x, ast.If) and not x.orelse and len(x.body) == 1 and isinstance(x.body[0], ast.Assign):
+            t, a = ast.unparse(x.test), x.body[0]
+            tgt = ast.unparse(a.targets[0])
+            if t == "'relative-images' in self.options" and tgt == "self.renderer.md_env['relative-images']" \
+                    and isinstance(a.value, ast.Call) and ast.unparse(a.value.func) == "os.path.relpath" \
+                    and len(a.value.args) == 2 and ast.unparse(a.value.args[0]) == "path.parent":
+                out.append(f"let env := if io_images o then set_images env (Some (relpath dir {base(a.value.args[1])})) else env in")
+                continue
+            if t == "'relative-docs' in self.options" and tgt == "self.renderer.md_env['relative-docs']" \
+                    and isinstance(a.value, ast.Tuple) and len(a.value.elts) == 3 \
+                    and ast.unparse(a.value.elts[0]) == "self.options['relative-docs']" \
+                    and ast.unparse(a.value.elts[2]) == "path.parent":
+                out.append(f"let env := match io_docs o with Some p => set_docs env (Some (p, {base(a.value.elts[1])}, dir)) | None => env end in")
+                continue
+        if u.startswith("self.renderer.nested_render_text(file_content, startline + 1"):
+            out.append("let '(a, env) := render env in")
+            rendered = True
+            continue
+        raise Untranslatable(f"include try body: {u[:100]}")
+    if not rendered:
+        raise Untranslatable("nested_render_text call not found")
+    for x in tr.finalbody:
+        u = ast.unparse(x)
+        if u in ("include_log.pop()", "self.renderer.document['source'] = source", "self.renderer.reporter.source = rsource") \
+                or u.startswith("if line_func is not None:"):
+            continue
+        if u == "self.renderer.md_env.pop('relative-images', None)":
+            out.append("let env := set_images env None in")
+        elif u == "self.renderer.md_env.pop('relative-docs', None)":
+            out.append("let env := set_docs env None in")
+        elif u == "self.renderer.md_env.update(outer_relative)" and saved:
+            out.append("let env := restore saved env in")
+        else:
+            raise Untranslatable(f"include finally: {u[:100]}")
+    return ("Definition include_env_src {A : Type} (o : iopts) (root_dir cur_dir dir : str) (render : menv -> A * menv) (env : menv)\n"
+            "  : A * menv :=\n" + "\n".join(out) + "\n(a, env).\n")
 
 
 HEADER = """(* GENERATED by gen/c12_src.py from myst_parser/mdit_to_docutils/{sphinx_,base}.py and
@@ -655,6 +835,7 @@ From MV Require Import Base.PyStr.
 From MV Require Import XRef.Path.
 From MV Require Import XRef.XRefModel.
 From MV Require Import XRef.XRefSrcBase.
+From MV Require Import XRef.IncludeModel.
 Import ListNotations.
 Open Scope N_scope.
 
@@ -694,11 +875,18 @@ def generate(ctx):
                .function("resolve_doc_nested_src", RP, "option (tgt * txt)", {"fromdocname": "str"},
                          prefix="let v_fromdocname := from in\n"))
     out.append("\n(* MystReferenceResolver.resolve_myst_ref_any: the candidate list, in the order coded *)\n"
-               + candidates_src(cls_fn(refs, "MystReferenceResolver", "resolve_myst_ref_any")))
+               + any_src(cls_fn(refs, "MystReferenceResolver", "resolve_myst_ref_any"), False))
+    out.append("\n(* MystReferenceResolver.resolve_myst_ref_any, whole: (warnings, first candidate) *)\n"
+               + any_src(cls_fn(refs, "MystReferenceResolver", "resolve_myst_ref_any"), True))
     out.append("\n(* MystReferenceResolver.resolve_myst_ref_doc *)\n"
                + Walker(cls_fn(refs, "MystReferenceResolver", "resolve_myst_ref_doc"), "outcome")
                .function("resolve_myst_ref_doc_src", "(P : project) (from : str) (explicit : bool) (reftarget : str) (reftargetid : option str)",
                          "outcome", {}, prefix="let v_warns := (@nil warn) in\n"))
+    out.append("\n(* MystReferenceResolver.run: one pending_xref node *)\n"
+               + run_node_src(cls_fn(refs, "MystReferenceResolver", "run")))
+    moc = ast.parse((repo / "myst_parser/mocking.py").read_text())
+    out.append("\n(* MockIncludeDirective.run: bookkeeping of md_env['relative-images'/'relative-docs'] *)\n"
+               + include_env_src(cls_fn(moc, "MockIncludeDirective", "run")))
     text = "".join(out)
     common.write_if_changed(common.COQ / "Gen" / "C12Src.v", text)
     ctx.gen_info["Gen/C12Src.v"] = hashlib.sha256(text.encode()).hexdigest()[:16]
